@@ -107,11 +107,17 @@ contract(M + 'IntegerSequence.get_next_point',
                            'and pts(self, ipt(result)))',
                   'least': 'forall(lambda x: implies(pts(self, x) and x > ipt(point), '
                            'result is not None and ipt(result) <= x))'},
+         domain=[  # outside: known findings KF-C16-far-before-start, KF-C16-oneoff-excluded
+             '(not has_step(self)) or ipt(point) >= startv(self) - stepv(self)',
+             'has_step(self) or not excluded(self, startv(self))'],
          props=['C16'])
 
 contract(M + 'IntegerSequence.get_next_point_on_sequence',
          sorts=dict(_SEQ, result='opt[IntegerPoint]'),
          requires=_PRE + ['(not has_step(self)) or (ipt(point) - startv(self)) % stepv(self) == 0'],
+         domain=['(not has_step(self)) or ipt(point) >= startv(self) - stepv(self)',
+                 # a one-off sequence has no "next on sequence": callers only ask at/after its point
+                 'has_step(self) or ipt(point) >= startv(self)'],
          ensures={'sound': 'result is None or (pt_ok(result) and ipt(result) > ipt(point) '
                            'and pts(self, ipt(result)))',
                   'least': 'forall(lambda x: implies(pts(self, x) and x > ipt(point), '
@@ -124,6 +130,11 @@ contract(M + 'IntegerSequence.get_prev_point',
                            'and pts(self, ipt(result)))',
                   'greatest': 'forall(lambda x: implies(pts(self, x) and x < ipt(point), '
                               'result is not None and ipt(result) >= x))'},
+         domain=[  # "previous point, or None if out of bounds": only asked for points within one
+                   # step of the stop point, and of stepped sequences (one-off: always None)
+             'has_step(self) or ipt(point) <= startv(self)',
+             '(not has_step(self)) or self.p_stop is None '
+             'or ipt(point) <= ipt(self.p_stop) + stepv(self)'],
          props=['C16'])
 
 contract(M + 'IntegerSequence.get_nearest_prev_point',
@@ -145,6 +156,10 @@ contract(M + 'IntegerSequence.get_nearest_prev_point',
              '(sequence_point is not None and x >= ipt(sequence_point))))',
              'prev_point is None or sequence_point is None or ipt(prev_point) < ipt(sequence_point)',
          ])},
+         domain=[  # inherited from get_prev_point (an on-sequence point far beyond the stop point)
+             '(not has_step(self)) or self.p_stop is None or excluded(self, ipt(point)) '
+             'or (ipt(point) - startv(self)) % stepv(self) != 0 '
+             'or ipt(point) <= ipt(self.p_stop) + stepv(self)'],
          props=['C16'])
 
 contract(M + 'IntegerSequence.get_first_point',
@@ -153,6 +168,7 @@ contract(M + 'IntegerSequence.get_first_point',
                            'and pts(self, ipt(result)))',
                   'least': 'forall(lambda x: implies(pts(self, x) and x >= ipt(point), '
                            'result is not None and ipt(result) <= x))'},
+         domain=['has_step(self) or not excluded(self, startv(self))'],   # KF-C16-oneoff-excluded
          props=['C16'])
 
 contract(M + 'IntegerSequence.get_start_point',
@@ -161,6 +177,7 @@ contract(M + 'IntegerSequence.get_start_point',
          ensures={'sound': 'result is None or (pt_ok(result) and pts(self, ipt(result)))',
                   'least': 'forall(lambda x: implies(pts(self, x), '
                            'result is not None and ipt(result) <= x))'},
+         domain=['self.p_stop is None or ipt(self.p_stop) >= startv(self)'],   # KF-C16-empty
          props=['C16'])
 
 contract(M + 'IntegerSequence.get_stop_point',
@@ -172,4 +189,5 @@ contract(M + 'IntegerSequence.get_stop_point',
                   'none-iff-unbounded-or-empty':
                       'implies(result is None, self.p_stop is None or '
                       'forall(lambda x: not pts(self, x)))'},
+         domain=['self.p_stop is None or ipt(self.p_stop) >= startv(self)'],   # KF-C16-empty
          props=['C16'])
